@@ -246,6 +246,20 @@ def run(ctx):
             r3.check(wit is None, "no-early-exit-before-verdict", "error exits of the Query arm lie after the role decision",
                      "the Query arm can return an error (`?` at %s) before the role is decided: the previous transaction's role is reused for this statement" % c.span, c.where(), wit and inf.describe_path(wit))
 
+    # an error exit in the middle of the message leaves the statements behind it unclassified: allowed only where the role is primary for good (D48)
+    if guard_flag and head is not None:
+        L_ = natural_loop(inf, head)
+        k = 0
+        for c in inf.calls("re:FromResidual<.*>>::from_residual$"):
+            # the `?` is an exit of the loop body: dominated by the header, the header is not reached again from it
+            if not inf.dominates(head, c.block) or head in inf.reach([c.block]):
+                continue
+            k += 1
+            wit = inf.uncrossed_path([head], [c.block], blocks=wset)
+            r3.check(wit is None, "error-exit-only-after-a-write#%d" % k, "the `?` at %s leaves the statement loop only after the write-seen flag was set (the role stays primary)" % c.span,
+                     "infer() can leave the statement loop with an error (`?` at %s) while only reads have been seen: the statements behind it are never looked at - in `SELECT .. WHERE id = 1; SELECT .. WHERE id = 2; INSERT ..` "
+                     "(two shards, automatic sharding key) the INSERT is not classified and the whole message goes to a replica" % c.span, c.where(), wit and inf.describe_path(wit))
+
     # ---------------- R4 the pool is asked for what the router decided
     # a QueryRouter method all of whose paths pass a call of infer() is as good as infer() (wrapper rule)
     infer_like = [INFER]
